@@ -401,9 +401,12 @@ pub(crate) fn unicode_range_inner(input: Span) -> PResult<String> {
 }
 
 pub fn bracket_list(input: Span) -> PResult<Value> {
-    let (input, content) =
-        delimited(char('['), opt(value_expression), char(']'))
-            .parse(input)?;
+    let (input, content) = delimited(
+        terminated(char('['), ignore_comments),
+        opt(value_expression),
+        char(']'),
+    )
+    .parse(input)?;
     Ok((
         input,
         match content {
